@@ -3,6 +3,8 @@ CONSTANTS
   ROT = 3
   LEN = 1
   MAC = 1
+  ActLen = 3
+  Act3Len = 4
   MaxSize = 2
   ReaderStops = FALSE
   TrackUsed = TRUE
